@@ -4,6 +4,7 @@ import PyPhysim.Proofs.C20Select
 import PyPhysim.Proofs.C20Gpcm
 import PyPhysim.Proofs.C20EigQR
 import PyPhysim.Proofs.C20GmdStep
+import PyPhysim.Proofs.C20GmdInvTop
 import PyPhysim.Generated.C20Conversion
 
 /-!
@@ -700,13 +701,11 @@ end conversions
 section gmd
 
 /-- FULL STATEMENT of the geometric-mean-decomposition clause (real case), about the
-    executable model `gmd` of `Model/C20Gmd.lean`: for every full SVD with positive
-    non-increasing singular values and `σ̄` their geometric mean, the sweep returns
-    `Q, R, P` with `Q R Pᵀ = U Σ Vᵀ`, orthonormal `Q`, `P`, upper-triangular `R` with
-    constant diagonal `σ̄`.  NOT PROVED: the loop invariant through the permutation
-    bookkeeping is not formalised; the clause is checked numerically on every case by the
-    oracle `gmd` of the harness, the model is tied to the code by correspondence, and the
-    algebra of each Givens step is `gmd_rotation_step_partial`. -/
+    executable model `gmd` of `Model/C20Gmd.lean` (arrays, `Except PyErr`, statement by statement
+    the code of `util.misc.gmd`): for every full SVD with positive non-increasing singular values
+    and `σ̄` their geometric mean, the sweep raises nothing (every array access is in range) and
+    returns `Q, R, P` with `Q R Pᵀ = U Σ Vᵀ`, orthonormal `Q`, `P`, upper-triangular `R` with
+    constant diagonal `σ̄`.  PROVED: `gmd_correct`. -/
 def GmdStatement : Prop :=
   ∀ (m n : Nat) (U : Mat ℝ m m) (V : Mat ℝ n n) (S : Fin (min m n) → ℝ) (sb : ℝ),
     0 < min m n → matMul (cT U) U = eye → matMul (cT V) V = eye →
@@ -720,14 +719,144 @@ def GmdStatement : Prop :=
        (∀ i j, j.val < i.val → Rm i j = 0) ∧
        (∀ i j, i.val = j.val → i.val < min m n → Rm i j = sb))
 
-/-- PARTIAL (the algebraic core of the sweep): in every rotating step — the pivot pair
+/-- THE GEOMETRIC MEAN DECOMPOSITION IS CORRECT (real case; all sizes `m × n`, any number of
+    singular values).  Proof (`Proofs/C20GmdInv*.lean`): loop invariant after `k` iterations —
+    `Q`, `P` have orthonormal columns and `A·P = Q·R_k`, where `R_k` is the stored `R` in its
+    first `k` columns, `(z[0:k], d[k])` in column `k`, `d[b]` on the diagonal for `k < b < p`
+    (`MInv`); the unused singular values are the ranks `large … small`, `perm`/`invperm` are
+    mutually inverse between these ranks and the positions `k < q < p` of `d`, and
+    `d[k] · ∏ S[large..small] = σ̄^(p−k)` (`BInv`).  The product invariant forces a partner on the
+    other side of `σ̄` (`pick_small_cs`, `pick_large_cs`; the `flag` branch is taken only when
+    `d[k] = σ̄`, never when `d[k] < σ̄`), so the rotation parameters satisfy `c² + s² = 1`,
+    `c² δ1² + s² δ2² = σ̄²`, from which the step algebra follows (`MInv.rot`, `BInv.step`).  The
+    invariant holds initially by the SVD contract (`init_inv`), is preserved (`Inv.step`), implies
+    that every index read is in range (`Inv.bounds`), and at `k = p − 1` gives the five
+    conclusions (`Inv.final`).  The array / `Except` model refines the abstract step
+    (`gmdStep_refines`, `sweep_ok`, `finish_ok`).  The whole proof is carried out once for a field
+    of scalars containing the reals (`GmdInv.RealLike`); this is the instance `K = ℝ`.
+    Complex matrices: `gmd_correct_complex`; any tolerance: `gmd_correct_truncated`. -/
+theorem gmd_correct : GmdStatement :=
+  fun m n U V S sb hp hU hV hS hmono hsb hprod =>
+    GmdInv.gmd_sound GmdInv.realLike_real m n U V S sb hp hU hV hS hmono hsb hprod
+
+/-- FULL STATEMENT of the geometric-mean-decomposition clause for COMPLEX matrices: the same
+    executable model `gmd`, instantiated at `ℂ` exactly as the compiled driver instantiates it at
+    its binary64 complex type (`RSqrt ℂ` = real square root of the real part, `≤` = comparison of
+    the real parts, `GmdInv.leRe`; the singular values and `σ̄` enter as real numbers embedded in
+    `ℂ`, as in the code, whose `d`, `z`, `R` are real arrays).  For every full SVD `A = U Σ Vᴴ` with
+    unitary `U`, `V`, positive non-increasing singular values and `σ̄` their geometric mean the
+    sweep raises nothing and returns `Q, R, P` with `Q R Pᴴ = U Σ Vᴴ`, `Qᴴ Q = 1`, `Pᴴ P = 1`,
+    upper-triangular `R` with constant diagonal `σ̄`.  PROVED: `gmd_correct_complex`. -/
+def GmdStatementComplex : Prop :=
+  ∀ (m n : Nat) (U : Mat ℂ m m) (V : Mat ℂ n n) (S : Fin (min m n) → ℝ) (sb : ℝ),
+    0 < min m n → matMul (cT U) U = eye → matMul (cT V) V = eye →
+    (∀ i, 0 < S i) → (∀ i j, i ≤ j → S j ≤ S i) → 0 < sb → sb ^ (min m n) = ∏ i, S i →
+    ∃ Q R P mg, @gmd ℂ _ _ _ _ _ _ _ _ GmdInv.leRe GmdInv.decLeRe m n (min m n) (sb : ℂ) (colsOf U)
+        (Array.ofFn (fun i => ((S i : ℝ) : ℂ))) (colsOf V) = .ok (Q, R, P, mg) ∧
+      (let Qm : Mat ℂ m m := fun i j => entryCols Q i.val j.val
+       let Rm : Mat ℂ m n := fun i j => entryRows R i.val j.val
+       let Pm : Mat ℂ n n := fun i j => entryCols P i.val j.val
+       matMul (matMul Qm Rm) (cT Pm) = matMul (matMul U (sigmaMat (fun i => ((S i : ℝ) : ℂ)))) (cT V) ∧
+       matMul (cT Qm) Qm = eye ∧ matMul (cT Pm) Pm = eye ∧
+       (∀ i j, j.val < i.val → Rm i j = 0) ∧
+       (∀ i j, i.val = j.val → i.val < min m n → Rm i j = (sb : ℂ)))
+
+/-- THE GEOMETRIC MEAN DECOMPOSITION IS CORRECT FOR COMPLEX MATRICES.  The proof of
+    `gmd_correct` is carried out once, for every field `K` with conjugation that contains the
+    reals such that conjugation, `sqrt` and `≤` restricted to the reals are the real ones
+    (`GmdInv.RealLike`); `ℝ` and `ℂ` are the two instances (`realLike_real`, `realLike_complex`).
+    Orthonormality is with respect to the Hermitian inner product; the rotations `G1`, `G2` are
+    real, so they commute with conjugation (`Orth.rot`). -/
+theorem gmd_correct_complex : GmdStatementComplex :=
+  fun m n U V S sb hp hU hV hS hmono hsb hprod =>
+    @GmdInv.gmd_sound ℂ _ _ _ GmdInv.leRe GmdInv.decLeRe Complex.ofRealHom GmdInv.realLike_complex
+      m n U V S sb hp hU hV hS hmono hsb hprod
+
+/-- EVERY TOLERANCE (`tol > 0` drops the singular values below it: `p = #{S ≥ tol} ≤ min m n` are
+    in use).  If the first `p` singular values are positive and non-increasing and `σ̄^p` is their
+    product, the sweep on `p` values raises nothing and returns `Q, R, P` with
+    `Q R Pᵀ = U Σ_p Vᵀ` — the rank-`p` truncation of `A`: the singular values beyond the first `p`
+    replaced by zero (whatever they are: they are never read) —, orthonormal `Q`, `P`,
+    upper-triangular `R` with `σ̄` on the first `p` diagonal entries.  `gmd_correct` is the case
+    `p = min m n`. -/
+theorem gmd_correct_truncated (m n : Nat) (U : Mat ℝ m m) (V : Mat ℝ n n) (S : Fin (min m n) → ℝ)
+    (sb : ℝ) (p : Nat) (hp : 0 < p) (hpmn : p ≤ min m n)
+    (hU : matMul (cT U) U = eye) (hV : matMul (cT V) V = eye)
+    (hS : ∀ i : Fin (min m n), i.val < p → 0 < S i)
+    (hmono : ∀ i j : Fin (min m n), i ≤ j → j.val < p → S j ≤ S i) (hsb : 0 < sb)
+    (hprod : sb ^ p = ∏ i : Fin (min m n), if i.val < p then S i else 1) :
+    ∃ Q R P mg, gmd m n p sb (colsOf U) (Array.ofFn S) (colsOf V) = .ok (Q, R, P, mg) ∧
+      (let Qm : Mat ℝ m m := fun i j => entryCols Q i.val j.val
+       let Rm : Mat ℝ m n := fun i j => entryRows R i.val j.val
+       let Pm : Mat ℝ n n := fun i j => entryCols P i.val j.val
+       matMul (matMul Qm Rm) (cT Pm)
+         = matMul (matMul U (sigmaMat (fun i => if i.val < p then S i else 0))) (cT V) ∧
+       matMul (cT Qm) Qm = eye ∧ matMul (cT Pm) Pm = eye ∧
+       (∀ i j, j.val < i.val → Rm i j = 0) ∧
+       (∀ i j, i.val = j.val → i.val < p → Rm i j = sb)) :=
+  GmdInv.gmd_sound_p GmdInv.realLike_real m n U V S sb p hp hpmn hU hV hS hmono hsb
+    (hprod.trans (GmdInv.prod_trunc S p hpmn))
+
+/-- the same for complex matrices -/
+theorem gmd_correct_truncated_complex (m n : Nat) (U : Mat ℂ m m) (V : Mat ℂ n n)
+    (S : Fin (min m n) → ℝ) (sb : ℝ) (p : Nat) (hp : 0 < p) (hpmn : p ≤ min m n)
+    (hU : matMul (cT U) U = eye) (hV : matMul (cT V) V = eye)
+    (hS : ∀ i : Fin (min m n), i.val < p → 0 < S i)
+    (hmono : ∀ i j : Fin (min m n), i ≤ j → j.val < p → S j ≤ S i) (hsb : 0 < sb)
+    (hprod : sb ^ p = ∏ i : Fin (min m n), if i.val < p then S i else 1) :
+    ∃ Q R P mg, @gmd ℂ _ _ _ _ _ _ _ _ GmdInv.leRe GmdInv.decLeRe m n p (sb : ℂ) (colsOf U)
+        (Array.ofFn (fun i => ((S i : ℝ) : ℂ))) (colsOf V) = .ok (Q, R, P, mg) ∧
+      (let Qm : Mat ℂ m m := fun i j => entryCols Q i.val j.val
+       let Rm : Mat ℂ m n := fun i j => entryRows R i.val j.val
+       let Pm : Mat ℂ n n := fun i j => entryCols P i.val j.val
+       matMul (matMul Qm Rm) (cT Pm)
+         = matMul (matMul U (sigmaMat (fun i => (((if i.val < p then S i else 0 : ℝ)) : ℂ)))) (cT V) ∧
+       matMul (cT Qm) Qm = eye ∧ matMul (cT Pm) Pm = eye ∧
+       (∀ i j, j.val < i.val → Rm i j = 0) ∧
+       (∀ i j, i.val = j.val → i.val < p → Rm i j = (sb : ℂ))) :=
+  @GmdInv.gmd_sound_p ℂ _ _ _ GmdInv.leRe GmdInv.decLeRe Complex.ofRealHom GmdInv.realLike_complex
+    m n U V S sb p hp hpmn hU hV hS hmono hsb (hprod.trans (GmdInv.prod_trunc S p hpmn))
+
+/-- the value the code passes as `sigma_bar`, `math.exp(np.mean(np.log(S[0:p])))`, read over the
+    reals, is positive and its `p`-th power is the product of the singular values in use — the
+    hypothesis on `σ̄` of `gmd_correct` / `gmd_correct_truncated` -/
+theorem gmd_sigma_bar_is_geometric_mean (p : Nat) (S : Fin p → ℝ) (hp : 0 < p) (hS : ∀ i, 0 < S i) :
+    0 < Real.exp ((∑ i, Real.log (S i)) / p) ∧
+    Real.exp ((∑ i, Real.log (S i)) / p) ^ p = ∏ i, S i :=
+  ⟨Real.exp_pos _, GmdInv.exp_mean_log_pow p S hp hS⟩
+
+/-- the existence of a straddling partner, stated on its own: if the pivot `d[k] ≥ σ̄` and
+    `d[k] · ∏ S[lo..hi) = σ̄^(hi−lo+1)` with positive `S`, the smallest remaining value `S sm` is
+    either `< σ̄` (a rotation with well-defined parameters) or the pivot already equals `σ̄`
+    (`flag`: `c = 1, s = 0` is then exact); in both cases `c² + s² = 1`, `c² d[k]² + s² (S sm)² = σ̄²` -/
+theorem gmd_partner_small (S : Nat → ℝ) (sb dk : ℝ) (lo hi sm : Nat) (hsb : 0 < sb)
+    (Spos : ∀ r ∈ Finset.Ico lo hi, 0 < S r) (hmin : ∀ r ∈ Finset.Ico lo hi, S sm ≤ S r)
+    (hsm : sm ∈ Finset.Ico lo hi)
+    (hprod : dk * ∏ r ∈ Finset.Ico lo hi, S r = sb ^ (hi - lo + 1)) (hge : sb ≤ dk) :
+    (gmdCS (decide (sb ≤ S sm)) sb dk (S sm)).1 ^ 2 + (gmdCS (decide (sb ≤ S sm)) sb dk (S sm)).2 ^ 2 = 1 ∧
+    (gmdCS (decide (sb ≤ S sm)) sb dk (S sm)).1 ^ 2 * dk ^ 2 +
+      (gmdCS (decide (sb ≤ S sm)) sb dk (S sm)).2 ^ 2 * S sm ^ 2 = sb ^ 2 :=
+  GmdInv.pick_small_cs S sb dk lo hi sm hsb Spos hmin hsm hprod hge
+
+/-- … and if the pivot `d[k] < σ̄` the largest remaining value is `> σ̄`: the code's `flag` test
+    `d[i] <= sigma_bar` never fires in exact arithmetic, the rotation is always performed -/
+theorem gmd_partner_large (S : Nat → ℝ) (sb dk : ℝ) (lo hi lg : Nat) (hsb : 0 < sb) (hdk : 0 < dk)
+    (Spos : ∀ r ∈ Finset.Ico lo hi, 0 < S r) (hmax : ∀ r ∈ Finset.Ico lo hi, S r ≤ S lg)
+    (hlg : lg ∈ Finset.Ico lo hi)
+    (hprod : dk * ∏ r ∈ Finset.Ico lo hi, S r = sb ^ (hi - lo + 1)) (hlt : dk < sb) :
+    ¬ S lg ≤ sb ∧
+    (gmdCS (decide (S lg ≤ sb)) sb dk (S lg)).1 ^ 2 + (gmdCS (decide (S lg ≤ sb)) sb dk (S lg)).2 ^ 2 = 1 ∧
+    (gmdCS (decide (S lg ≤ sb)) sb dk (S lg)).1 ^ 2 * dk ^ 2 +
+      (gmdCS (decide (S lg ≤ sb)) sb dk (S lg)).2 ^ 2 * S lg ^ 2 = sb ^ 2 :=
+  ⟨GmdInv.pick_large_flag_never S sb dk lo hi lg hsb Spos hmax hprod hlt,
+   GmdInv.pick_large_cs S sb dk lo hi lg hsb hdk Spos hmax hlg hprod hlt⟩
+
+/-- the 2×2 algebra of one rotating step in the form `G2ᵀ · diag · G1` (the invariant proof uses
+    the equivalent form `diag · G1 = G2 · [[σ̄, x], [0, y]]`, `GmdInv.gmd_step_AP`): the pivot pair
     `δ1, δ2` straddles the geometric mean `σ̄` — the parameters `c, s` the code computes make
     `G1` and `G2` orthogonal and `G2ᵀ · diag(δ1, δ2) · G1 = [[σ̄, x], [0, y]]` with exactly the
-    `x` stored in `z[k]` and the `y` stored back in `d[k+1]`; so each step keeps
-    `Qᵀ A P` upper triangular, fixes one more diagonal entry to `σ̄`, and keeps `Q`, `P`
-    orthonormal.  What is missing for `GmdStatement`: the invariant across steps
-    (permutation arrays, the `z` column updates, existence of a straddling partner). -/
-theorem gmd_rotation_step_partial (sb d1 d2 : ℝ) (hsb : 0 < sb)
+    `x` stored in `z[k]` and the `y` stored back in `d[k+1]`. -/
+theorem gmd_rotation_step (sb d1 d2 : ℝ) (hsb : 0 < sb)
     (h : (0 ≤ d2 ∧ d2 < sb ∧ sb ≤ d1) ∨ (0 ≤ d1 ∧ d1 < sb ∧ sb ≤ d2)) :
     let cs := gmdCS false sb d1 d2
     let g := gmdG1 cs.1 cs.2
@@ -753,6 +882,20 @@ theorem gmd_flag_step (sb d2 : ℝ) (hsb : sb ≠ 0) :
 
 /-- non-vacuity: `σ̄ = 2`, `δ1 = 4`, `δ2 = 1` straddle -/
 example : (0 : ℝ) ≤ 1 ∧ (1 : ℝ) < 2 ∧ (2 : ℝ) ≤ 4 := by norm_num
+
+/-- non-vacuity of `GmdStatement`: `m = n = 2`, `U = V = 1`, `S = (4, 1)`, `σ̄ = 2` satisfy every
+    hypothesis (the sweep then performs one genuine rotation) -/
+example : ∃ (U V : Mat ℝ 2 2) (S : Fin (min 2 2) → ℝ) (sb : ℝ),
+    0 < min 2 2 ∧ matMul (cT U) U = eye ∧ matMul (cT V) V = eye ∧ (∀ i, 0 < S i) ∧
+    (∀ i j, i ≤ j → S j ≤ S i) ∧ 0 < sb ∧ sb ^ (min 2 2) = ∏ i, S i :=
+  ⟨eye, eye, GmdInv.exS, 2, GmdInv.ex_hyps⟩
+
+/-- non-vacuity of `GmdStatementComplex`: `U = V = i·1` (unitary, not real), `S = (4, 1)`, `σ̄ = 2` -/
+example : ∃ (U V : Mat ℂ 2 2) (S : Fin (min 2 2) → ℝ) (sb : ℝ),
+    0 < min 2 2 ∧ matMul (cT U) U = eye ∧ matMul (cT V) V = eye ∧ (∀ i, 0 < S i) ∧
+    (∀ i j, i ≤ j → S j ≤ S i) ∧ 0 < sb ∧ sb ^ (min 2 2) = ∏ i, S i :=
+  ⟨GmdInv.exU, GmdInv.exU, GmdInv.exS, 2, GmdInv.ex_hyps.1, GmdInv.exU_unitary, GmdInv.exU_unitary,
+    GmdInv.ex_hyps.2.2.2⟩
 
 end gmd
 
